@@ -107,8 +107,7 @@ def _run(steps):
 
 def one_step(op: int, k: int, s: int) -> bool:
     """
-    pre: 0 <= op < 8 and 0 <= k < 7 and 0 <= s < 5
-    post: __return__
+    require: 0 <= op < 8 and 0 <= k < 7 and 0 <= s < 5
     """
     return _run([(op, k, s, ())])
 
@@ -121,44 +120,39 @@ SSEL = [0, 2, 4]
 
 def two_steps(op1: int, op2: int, k1: int, s1: int, k2: int, s2: int) -> bool:
     """
-    pre: 0 <= op1 < 8 and 0 <= op2 < 8
-    pre: 0 <= k1 < 3 and 0 <= s1 < 3 and 0 <= k2 < 3 and 0 <= s2 < 3
-    post: __return__
+    require: 0 <= op1 < 8 and 0 <= op2 < 8
+    require: 0 <= k1 < 3 and 0 <= s1 < 3 and 0 <= k2 < 3 and 0 <= s2 < 3
     """
     return _run([(op1, KSEL[k1], SSEL[s1], ()), (op2, KSEL[k2], SSEL[s2], ())])
 
 
 def nested(op1: int, op3: int, k1: int, s1: int, k3: int, s3: int) -> bool:
     """
-    pre: 5 <= op1 < 7 and 0 <= op3 < 8
-    pre: 0 <= k1 < 3 and 0 <= s1 < 3 and 0 <= k3 < 3 and 0 <= s3 < 3
-    post: __return__
+    require: 5 <= op1 < 7 and 0 <= op3 < 8
+    require: 0 <= k1 < 3 and 0 <= s1 < 3 and 0 <= k3 < 3 and 0 <= s3 < 3
     """
     return _run([(op1, KSEL[k1], SSEL[s1], ((op3, KSEL[k3], SSEL[s3]),))])
 
 
 def two_steps_full(op1: int, op2: int, k1: int, s1: int, k2: int, s2: int) -> bool:
     """
-    pre: 0 <= op1 < 8 and 0 <= op2 < 8
-    pre: 0 <= k1 < 7 and 0 <= s1 < 5 and 0 <= k2 < 7 and 0 <= s2 < 5
-    post: __return__
+    require: 0 <= op1 < 8 and 0 <= op2 < 8
+    require: 0 <= k1 < 7 and 0 <= s1 < 5 and 0 <= k2 < 7 and 0 <= s2 < 5
     """
     return _run([(op1, k1, s1, ()), (op2, k2, s2, ())])
 
 
 def three_steps(op1: int, op2: int, op3: int, k1: int, s1: int, k2: int, s2: int, k3: int, s3: int) -> bool:
     """
-    pre: 0 <= op1 < 8 and 0 <= op2 < 8 and 0 <= op3 < 8
-    pre: 0 <= k1 < 3 and 0 <= s1 < 3 and 0 <= k2 < 3 and 0 <= s2 < 3 and 0 <= k3 < 3 and 0 <= s3 < 3
-    post: __return__
+    require: 0 <= op1 < 8 and 0 <= op2 < 8 and 0 <= op3 < 8
+    require: 0 <= k1 < 3 and 0 <= s1 < 3 and 0 <= k2 < 3 and 0 <= s2 < 3 and 0 <= k3 < 3 and 0 <= s3 < 3
     """
     return _run([(op1, KSEL[k1], SSEL[s1], ((op3, KSEL[k3], SSEL[s3]),)), (op2, KSEL[k2], SSEL[s2], ())])
 
 
 def callbacks(k: int, k2: int) -> bool:
     """
-    pre: 0 <= k < 7 and 0 <= k2 < 7
-    post: __return__
+    require: 0 <= k < 7 and 0 <= k2 < 7
     """
     _reset()
     try:
@@ -182,6 +176,18 @@ def callbacks(k: int, k2: int) -> bool:
         return ok
     finally:
         _reset()
+
+
+def reachability_witness(op: int, k: int, s: int) -> bool:
+    """
+    require: 0 <= op < 8 and 0 <= k < 7 and 0 <= s < 5
+    """
+    # the same code as one_step, but claiming the opposite at the end: CrossHair MUST refute this, otherwise the
+    # conditions above would be passing vacuously (unsatisfiable precondition / callee summarised / never executed)
+    return not _run([(op, k, s, ())])
+
+
+WITNESS = 'reachability_witness'
 
 
 # shards: (function, {fixed leading selectors}) -- one CrossHair condition each
